@@ -313,6 +313,11 @@ def _parse_einsum_entry(einsum_entry: dict) -> dict:
 
 def _parse_einsum_string(einsum_str: str) -> dict:
     original = einsum_str
+    if re.search(r"\w\s+\w", einsum_str):
+        raise ValueError(
+            f"Invalid einsum format: {original}. Whitespace separates two names or "
+            f"numbers with no operator, bracket or comma in between."
+        )
     einsum_str = re.sub(r"\s+", "", einsum_str.strip())
 
     if not einsum_str:
@@ -347,6 +352,12 @@ def _parse_einsum_string(einsum_str: str) -> dict:
     input_matches = re.findall(tensor_pattern, rhs)
     if not input_matches:
         raise ValueError(f"No input tensors: {original}, {rhs}")
+    if not re.fullmatch(rf"{tensor_pattern}(?:[*+]{tensor_pattern})*", rhs):
+        raise ValueError(
+            f"Invalid einsum format: {original}. The right-hand side must be tensor "
+            f"references Name[...] separated by a single '*' (or '+'); found unexpected "
+            f"text."
+        )
 
     for m in input_matches:
         update(m, False)
@@ -361,6 +372,8 @@ def _parse_projection(proj_str: str) -> dict | list:
     proj_str = proj_str.strip()
     if not proj_str:
         raise ValueError("Projection cannot be empty")
+    if "[" in proj_str:
+        raise ValueError(f"Invalid projection: {proj_str}. Unbalanced '['.")
 
     parts = [p.strip() for p in proj_str.split(",")]
 
